@@ -1,19 +1,19 @@
 #!/bin/bash
 # usage: seed_matrix.sh [seed ids...]  -> which checks flag which seeded change.
-# Each seed is applied to a scratch copy of /repo's source tree (never to /repo).
+# Each seed is applied to a scratch copy of /repo's source tree (never to
+# /repo); all checks share one engine per seed; seeds run 12 at a time.
 cd /verif
 SEEDS=${@:-$(ls seeded)}
-PROPS=${PROPS:-$(ls h2verif/rules | grep '^c[0-9][0-9].py$' | sed 's/.py//' | tr a-z A-Z)}
-for s in $SEEDS; do
+one() {
+  s=$1
   D=$(mktemp -d /tmp/seedrun.XXXXXX)
   mkdir -p $D/src && cp -r /repo/src/h2 $D/src/h2
-  if ! (cd $D && patch -s -p1 < /verif/seeded/$s/patch.diff >/dev/null 2>&1); then echo "$s: patch failed"; rm -rf $D; continue; fi
-  HIT=""; ERR=""
-  for p in $PROPS; do
-    OUT=$(H2VERIF_NOEVIDENCE=1 ./check $p --repo $D 2>&1); RC=$?
-    if [ $RC -eq 1 ]; then HIT="$HIT $p"; fi
-    if [ $RC -eq 2 ]; then ERR="$ERR $p"; fi
-  done
-  echo "$s: flagged by [${HIT# }]  analysis-error [${ERR# }]"
+  if ! (cd $D && patch -s -p1 < /verif/seeded/$s/patch.diff >/dev/null 2>&1); then echo "$s: patch failed"; rm -rf $D; return; fi
+  OUT=$(H2VERIF_NOEVIDENCE=1 ./check all --summary --repo $D 2>&1)
+  HIT=$(echo "$OUT" | grep ' rc=1 ' | cut -d' ' -f1 | tr '\n' ' ')
+  ERR=$(echo "$OUT" | grep -e ' rc=2 ' -e '^ANALYSIS-ERROR' | cut -d' ' -f1-2 | tr '\n' ' ')
+  echo "$s: flagged by [${HIT% }]  analysis-error [${ERR% }]"
   rm -rf $D
-done
+}
+export -f one
+printf '%s\n' $SEEDS | xargs -P 12 -I{} bash -c 'one {}' | sort
